@@ -70,11 +70,12 @@ def refine(diff, tol, rng_seed=0):
     flagvars = [v for v in vs if v[0] in 'xy' and v[1] in '12' or v in FLAGS4]
     cand = []
     grid = [Fraction(k, 10) for k in range(-10, 11)]
-    for _ in range(400):
+    for trial in range(800):
         env = {}
         for v in vs:
             if v in flagvars:
-                env[v] = Fraction(1)
+                # first all edge flags 1 (the usual case); then independent 0/1 flags and generic values in the box
+                env[v] = Fraction(1) if trial < 400 else (Fraction(rnd.randint(0, 1)) if trial < 650 else rnd.choice(grid))
             else:
                 env[v] = rnd.choice(grid)
         if 'xi1' in env and 'xi2' in env and env['xi1'] > env['xi2']:
